@@ -48,11 +48,18 @@ def block_kv(level, vals):
     return "%d:%d:%s" % (level, {6: 8, 11: 4, 255: 6}[level], ",".join("%s=%d" % kv for kv in vals))
 
 
-def focused_config(r, n):
+def focused_config(r, n, levels_only=False):
     """valid configs that combine sections whose interplay is index arithmetic: frames removed in front of / inside
     ranged scene cuts and active-area edits (ranges are positions in the ORIGINAL list), presets whose ids are not
     their positions, duplicates whose source lies behind their offset with length >= 2"""
     cfg, mp = {}, []
+    if levels_only:
+        # source levels alone, at and beyond the 12-bit bound: a value that cannot be written is an error of the command
+        for nm, key, vals in (("min_pq", "minpq", [0, 7, 4095, 4096]), ("max_pq", "maxpq", [4095, 4096, 5000, 65535, 3079])):
+            if r.random() < 0.8:
+                cfg[nm] = r.choice(vals)
+                mp.append("%s@%d" % (key, cfg[nm]))
+        return cfg, "/".join(mp) or "-", "-", True
     a = r.randrange(0, max(1, n - 2))
     if r.random() < 0.8:
         rm = [str(a)] if r.random() < 0.5 else ["%d-%d" % (a, min(n - 1, a + r.choice([0, 1, 2])))]
@@ -85,6 +92,8 @@ def focused_config(r, n):
 
 
 def gen_config(r, n, pool, w, clean=False):
+    if r.random() < 0.06:
+        return focused_config(r, n, levels_only=True)
     if n >= 3 and r.random() < 0.25:
         return focused_config(r, n)
     cfg, mp = {}, []
@@ -226,6 +235,21 @@ def run(res):
     okl = C.dvh().run(["parseclass rpu " + (RC.SC4 + raw).hex() for t, raw, m in trees])
     pool = [raw.rstrip(b"\x00") for (t, raw, m), ok in zip(trees, okl) if ok == "ok" and raw[:3] == bytes([0x19, 8, 9])]
     pool += [v.rstrip(b"\x00") for k, v in RC.asset_cases() if v[:3] == bytes([0x19, 8, 9])]
+    # frames whose L5 has exactly one non-zero offset, a zero L5, or none (drop_l5 "zeroes" looks at all four fields)
+    from . import c16 as C16
+    from .. import rpugen as G
+    extra = []
+    for (t, raw, m), ok in list(zip(trees, okl))[:40]:
+        if ok != "ok" or raw[:3] != bytes([0x19, 8, 9]) or t.get("vdr_dm_data") is None or not t["vdr_dm_data"].get("cmv29_metadata"):
+            continue
+        key = r.choice([(0, 0, 0, 0), (7, 0, 0, 0), (0, 9, 0, 0), (0, 0, 11, 0), (0, 0, 0, 13), (0, 0, 0, 140), None])
+        C16.set_l5(t, key)
+        extra.append(G.encode(t).rstrip(b"\x00"))
+    l5_pool = []
+    if extra:
+        oke = C.dvh().run(["parseclass rpu " + (RC.SC4 + x).hex() for x in extra])
+        l5_pool = [x for x, o in zip(extra, oke) if o == "ok"]
+        pool += l5_pool
     ncase = 150 if res.tier == "quick" else 2500
     nrun = 0
     stats = {"ok": 0, "err": 0, "removed": 0, "dups": 0, "source": 0, "untouched_checked": 0}
@@ -235,6 +259,17 @@ def run(res):
         if r.random() < 0.3:
             rpus = [rpus[0]] * n if r.random() < 0.5 else rpus
         cfg, mcfg, src, heavy = gen_config(r, n, pool, w, clean=r.random() < 0.7)
+        if l5_pool and r.random() < 0.12:
+            # drop_l5 on frames whose L5 has one non-zero field / is zero / is absent, alone or with an `all` preset
+            rpus = [r.choice(l5_pool) for _ in range(n)]
+            mode = r.choice(["zeroes", "zeroes", "all", "Zeroes"])
+            aa = {"drop_l5": mode}
+            parts = ["aa", "dropl5@" + hx(mode)]
+            if r.random() < 0.3:
+                aa["presets"] = [{"id": 3, "left": 1, "right": 2, "top": 3, "bottom": 4}]
+                aa["edits"] = {"all": 3}
+                parts += ["presets@3:1:2:3:4", "edits@%s:3" % hx("all")]
+            cfg, mcfg, src, heavy = {"active_area": aa}, "/".join(parts), "-", True
         inp = w.write("in.bin", b"".join(b"\x00\x00\x00\x01" + R.escape(x) for x in rpus))
         cj = w.write("cfg.json", json.dumps(cfg).encode())
         outp = w.path("out.bin")
@@ -292,7 +327,7 @@ def run(res):
     res.coverage.update({
         "evaluations": nrun * 2,
         "distinct_nontrivial": ncase,
-        "rule": "RPU lists of 1..15 frames drawn from generated valid RPUs (mixed profiles, with/without CM v4.0, with/without L5, MMR/polynomial/NLQ) and the repository's sample RPUs x editor configs generated field by field: mode 0..6/255, remove_cmv4, remove_mapping, min/max PQ, active_area {crop, drop_l5, presets with duplicate / unknown ids, edits with `all` and range keys}, remove (ranges, indices, junk), duplicate (source/offset at and past the bounds, several entries incl. entries sharing one offset with different sources, length 0..3), scene_cuts (all / ranges, overlapping), level6/9/11/255, source_rpu of equal / different length / missing file with and without rpu_levels; a quarter of the configs focused on index arithmetic (frames removed in front of / inside ranged scene cuts and edits, preset ids different from their positions, duplicates with the source behind the offset and length >= 2); range keys at every shape: start=end, end=N-1, end=N, start>end, far past the end, half-empty, non-numeric, `+`-prefixed, three-part; exit status and output bytes compared with the Coq editor model; length accounting and byte-identity of frames outside every range checked directly",
+        "rule": "RPU lists of 1..15 frames drawn from generated valid RPUs (mixed profiles, with/without CM v4.0, with/without L5, MMR/polynomial/NLQ) and the repository's sample RPUs x editor configs generated field by field: mode 0..6/255, remove_cmv4, remove_mapping, min/max PQ, active_area {crop, drop_l5, presets with duplicate / unknown ids, edits with `all` and range keys}, remove (ranges, indices, junk), duplicate (source/offset at and past the bounds, several entries incl. entries sharing one offset with different sources, length 0..3), scene_cuts (all / ranges, overlapping), level6/9/11/255, source_rpu of equal / different length / missing file with and without rpu_levels; frames whose L5 has exactly one non-zero offset under drop_l5; a quarter of the configs focused on index arithmetic (frames removed in front of / inside ranged scene cuts and edits, preset ids different from their positions, duplicates with the source behind the offset and length >= 2); range keys at every shape: start=end, end=N-1, end=N, start>end, far past the end, half-empty, non-numeric, `+`-prefixed, three-part; exit status and output bytes compared with the Coq editor model; length accounting and byte-identity of frames outside every range checked directly",
         "cli_runs": nrun, "outcomes": stats,
     })
     res.assumptions += ["JSON deserialisation of the config (serde) is not modelled: the model receives the typed configuration the generator built",
